@@ -49,7 +49,7 @@ def _case(draw):
                     row=draw(st.integers(0, 7)), col=draw(st.integers(0, 2)))
     spec = draw(sample_spec(min_d=1, max_d=5, min_n=0, max_n=25))
     spec['extra'] = [[k, v] for k, v in (('$BTIM', '12:30:05'), ('$ETIM', '12:31:45.50'), ('$DATE', '05-MAR-2021'),
-                                          ('$TIMESTEP', '0.01'), ('CUSTOM', 'x/y'))
+                                          ('$TIMESTEP', '0.01' if spec['data_seed'] % 3 else '0'), ('CUSTOM', 'x/y'))
                      if draw(st.booleans())]
     if draw(st.booleans()):
         spec['analysis'] = [['GATE1', '0.5']]
